@@ -36,6 +36,12 @@ checks = {
  "C09": ("exploration", "enum", E1,
          "Per decoder entry point (frame binary/base64, FOpts/FRMPayload command decode, decrypt-then-decode with two keys, join-accept decrypt, CFList, MACCommand and payload decoders, the four application-layer Commands decoders, nine backend text/JSON unmarshalers and json.Unmarshal into all 20 payload structs) complete enumeration of short inputs and control-byte products; oracle: value or error, no panic, no hang, input buffer and its spare capacity untouched, stream decoders consume at least one byte per command.",
          "Inputs longer than the enumerated bounds are covered by the progress invariant and by length sweeps with fillers up to 512 bytes; 'linear time' is decided by the progress invariant, not by timing."),
+ "C12": ("exploration", "enum", E1,
+         "Complete enumeration of the finite configuration space (24 band names x repeater x dwell-time) with every uplink channel index, every (uplink DR, RX1 offset) in [-2..16]x[-2..9] and a 16x6 DevAddr/beacon-time alphabet; RX1 channel rule, RX1 data-rate formula / structural rules and ping-slot rule taken from an independent Regional Parameters table; definedness and direction of data-rates read exactly through the snapshot hook.",
+         "DevAddr/beacon time use alphabets covering all residues of the hopping rule; LR-FHSS rows and IN865 offsets 6-7 are judged structurally only (no closed formula in the Regional Parameters)."),
+ "C13": ("exploration", "enum", E1,
+         "Complete enumeration of every data-rate index x direction, every (protocol version, revision, data-rate) query incl. unknown strings, every payload-size cell of every table, every default channel and TX-power index of all 96 configurations; closure and relations decided on the snapshot, constants compared with an independent Regional Parameters table.",
+         "Numeric payload cells are judged by the relations the property states, not cell by cell; the SF-monotonicity relation is applied among data-rates of a common direction (the Regional Parameters themselves give the 500 kHz uplink and downlink rates different repeater limits)."),
 }
 
 def load_extra():
